@@ -53,7 +53,7 @@ LSF_MEM = ["4GB", "8GB", "16GB", "2GB"]
 UNKNOWN = ["walltme", "gpu", "threads", "foo_bar"]
 SLURM_MAP = {"cores": "cpus-per-task", "memory": "mem", "walltime": "time", "queue": "partition", "account": "account", "constraint": "constraint", "nodes": "nodes", "mail_type": "mail-type", "mail_user": "mail-user", "qos": "qos", "gres": "gres"}
 
-WD_NAMES = ["plain", "with space", "semi;colon", "amp&ersand", "dollar$HOME", "star*", "single'quote", 'double"quote', "paren(s)", "back`tick", "ünïcödé", "tab-less but  two spaces", "#hash", "~tilde", "a|b", "x>y", "br{a,b}ce", "q?mark", "excl!"]
+WD_NAMES = ["plain", "{queue}", "x{cores}y", "with space", "semi;colon", "amp&ersand", "dollar$HOME", "star*", "single'quote", 'double"quote', "paren(s)", "back`tick", "ünïcödé", "tab-less but  two spaces", "#hash", "~tilde", "a|b", "x>y", "br{a,b}ce", "q?mark", "excl!"]
 
 
 def budget(tier):
@@ -76,6 +76,8 @@ def gen_spec(rng, uid):
         "(exit 0); echo sub",
         "echo a; echo b >&2",
         "true && echo and",
+        "cores=7; queue=q1; memory=9; echo ${cores} ${queue} ${memory} {cores} {job_name}",
+        "echo '{std_out} {std_err}' ${GWF_UNSET:-{queue}}",
     ]
     for e in rng.sample(extras, rng.randint(0, 4)):
         lines.append(e)
